@@ -168,8 +168,34 @@ def r4(ctx, F):
         eb, et = eofs[0]
         eq, ne = eq_edges(fl, eb)
         ok = all(cfg.edges_guard(eq, nb) and fl.guarded_by(nb, first[0], 'Err') for nb in nones)
-    ctx.check(ok, 'C12.R4', 'read_frame:clean-eof', 'Ok(None) exactly on UnexpectedEof of the length prefix',
-              'read_frame does not map a clean EOF at a frame boundary to Ok(None) (or maps other conditions to it)', loc(b, b.lo))
+    kind_sw = None
+    if not ok and nones and first is not None and all(fl.guarded_by(nb, first[0], 'Err') for nb in nones):
+        # the same test as a match on the kind (`matches!(e.kind(), UnexpectedEof | BrokenPipe)`): Ok(None) sits behind edges
+        # of a switch on the error kind of that first read that include UnexpectedEof and otherwise only other ways a
+        # stream ends (the peer went away) - never a kind that says the bytes are bad
+        ek = F.adts.get('std::io::ErrorKind')
+        dis = {v['name']: v['discr'] for v in (ek or {}).get('variants', [])}
+        ended = {dis.get(n) for n in ('UnexpectedEof', 'BrokenPipe', 'ConnectionReset', 'ConnectionAborted', 'NotConnected')} - {None}
+        for sb in cfg.reachable():
+            st_ = b.blocks[sb]['term']
+            if st_['k'] != 'switch' or st_['on']['k'] == 'const':
+                continue
+            if not any(o.kind == 'call' and str(o.key).endswith('io::Error::kind') for o in fl.origins(st_['on'])):
+                continue
+            kind_sw = sb
+            vals = [tv for tv, tb in st_['targets'] if any(cfg.can_reach(tb, nb) for nb in nones)]
+            others_reach = any(cfg.can_reach(st_['otherwise'], nb) for nb in nones)
+            if dis.get('UnexpectedEof') in vals and set(vals) <= ended and not others_reach and \
+                    all(cfg.edges_guard({(sb, tb, tv) for tv, tb in st_['targets'] if tv in vals}, nb) for nb in nones):
+                ok = True
+    kind_eqs = [eb for eb, et in fl.calls_to('std::cmp::PartialEq::eq', 'std::cmp::PartialEq::ne')
+                if any(o.kind == 'agg' and str(o.key).startswith('std::io::ErrorKind::') for o in fl.origins(et['args'][1]) | fl.origins(et['args'][0]))]
+    if not ok and kind_sw is None and not kind_eqs and nones and first is not None and all(fl.guarded_by(nb, first[0], 'Err') for nb in nones) and \
+            any(str(callee(t_) or '').endswith('io::Error::kind') for _, t_ in fl.calls(lambda c: True)):
+        ctx.undecided('C12.R4', 'read_frame returns Ok(None) after a failed read of the length prefix under a test of the error kind that is not read')
+    else:
+        ctx.check(ok, 'C12.R4', 'read_frame:clean-eof', 'Ok(None) exactly on an end-of-stream kind (UnexpectedEof) of the length prefix',
+                  'read_frame does not map a clean EOF at a frame boundary to Ok(None) (or maps other conditions to it)', loc(b, b.lo))
     # loops reading input
     for path, readers in ((SERVE, ('wire::read_frame',)), ('serve::handle_put', ('std::io::Read::read',))):
         body = F.body(path)
